@@ -224,4 +224,24 @@ def NameAndUrl (alpha : Char → Bool) : Y → NameUrl → Prop
       r = ⟨((mapGet nameKey m).bind asStr).bind nonBlank, ((mapGet urlKey m).bind asStr).bind nonBlank⟩
   | _, _ => False
 
+/-! ### the documented forms per standard key -/
+
+/-- the value is of a documented form for the key (keys without validation accept everything) -/
+def Accepts (c : Conv Rat) (alpha : Char → Bool) : StdKey → Y → Prop
+  | .servings, v => ∃ l, Servings v l
+  | .tags, v => ∃ l, Tags v l
+  | .time, v => ∃ t, TimeOf c v t
+  | .prepTime, v => ∃ n, MinutesOf c v n
+  | .cookTime, v => ∃ n, MinutesOf c v n
+  | .title, v => ∃ s, v = .str s
+  | .description, v => ∃ s, v = .str s
+  | .locale, v => ∃ r, Locale v r
+  | .author, v => ∃ r, NameAndUrl alpha v r
+  | .source, v => ∃ r, NameAndUrl alpha v r
+  | .course, _ => True
+  | .difficulty, _ => True
+  | .cuisine, _ => True
+  | .diet, _ => True
+  | .images, _ => True
+
 end Cook.SM.Spec
